@@ -274,12 +274,14 @@ class lengthtest(Command):
         a = tex.readDimen()
         relation = next(tex.itertokens())
         b = tex.readDimen()
+        # compare whole scaled points, as TeX does, for every relation
+        a, b = round(a), round(b)
         if relation == '<':
             return [_true() if a < b else _false()]
         elif relation == '>':
             return [_true() if a > b else _false()]
         elif relation == '=':
-            return [_true() if abs(a - b) < 1e-6 else _false()]
+            return [_true() if a == b else _false()]
         raise ValueError('"%s" is not a valid relation' % relation)
 
 
